@@ -37,6 +37,8 @@ ASSUMPTIONS = [
     "well-formed record = instance of the documented class whose fields are str or None; emptiness of a field is not judged by itself (only through validators and the round trip)",
     "SplitResult arguments are outside the quantifier ('for every string'): the SplitResult branch of the is_*_url predicates is exercised with host-ful inputs only, host-less ones are counted, not judged (C18 owns them)",
     "normalize_url(platform_aware=True) is only monitored for exceptions raised inside the six platform modules (its own totality belongs to C05)",
+    "a YouTube record whose id fails is_youtube_video_id is reported once, as a validator violation; the round trip of its canonical URL is not judged again",
+    "raise-site keys quote the source text that was loaded when the shard started (linecache entries pinned), so a commit landing in the working tree during a run cannot garble them",
     "the round trip is demanded for ids/handles made of URL-safe characters only (no percent-escapes, '&', '#', '?' inside values): templates are not required to quote",
 ]
 
@@ -806,6 +808,7 @@ DIRECTED = [
     C("facebook", "facebook.com", ["x", "photos", "a.", "3"]), C("facebook", "facebook.com", ["x", "photos", "a.2", "", "y"]), C("facebook", "facebook.com", ["x", "posts"]), C("facebook", "facebook.com", ["x", "videos"], True),
     C("facebook", "facebook.com", ["groups", "posts"], True), C("facebook", "facebook.com", ["groups", "12345678", "posts"], True), C("facebook", "facebook.com", ["groups", "x", "permalink"], True),
     C("facebook", "facebook.com", ["groups", "1", "permalink"], True), C("facebook", "facebook.com", ["12345678", "posts"], True), C("facebook", "facebook.com", ["."]),
+    C("facebook", "facebook.com", ["x", "y", "", "", "photos"], True), C("facebook", "facebook.com", ["x", "photos", "a.", "", "y"]),
     C("facebook", FBH, ["."]), C("facebook", FBH, ["some.handle", "photos", "", "99"]), C("facebook", FBH, ["123456789", "photos", "a.", "99"]), C("facebook", FBH, ["some.handle", "photos", "a.1234", "", "x"]),
     C("facebook", FBH, ["groups", "photos", "a.1234", "99"]), C("facebook", FBH, ["x.php", "photos", "a.1234", "99"]), C("facebook", FBH, ["", "some.handle"]), C("facebook", FBH, ["some.handle", "videos", "", "x"]),
     C("facebook", FBH, ["", "videos", "99"]), C("facebook", FBH, ["some.handle", "posts", "", "x"]), C("facebook", FBH, ["groups", "", "posts", "99"]), C("facebook", FBH, ["groups", "", "x"]),
@@ -858,7 +861,7 @@ ARBITRARY = ["", " ", "\t", "\n", "http://", "https://", "//", "/", "#", "?", "h
              "facebook.com:abc/x/posts", "https://user:pw@twitter.com:8080/i", "http://t.me:x/s", "youtu.be:0/", "notfacebook.com/groups/", "facebook.com.evil.org/videos/", "evil.org/facebook.com/posts/",
              "evil.org/?u=twitter.com/i", "http://evil.com/#next=%2Fwatch%3Fv%3Dabc", "http://evil.com/?next=%2Fwatch%3Fv%3D" + VID, "http://evil.com/?a=next%3D%252Fwatch%253Fv%253Dabc", "xfacebook.com/videos/",
              "mytwitter.com/i", "xt.me/s", "t.me.evil.org/s", "docs.google.com.evil.org/document/d", "http://evil.org/docs.google.com/document/d/e/pub", "http://x@docs.google.com@evil.org/document/d/e/x/pub",
-             "[.twitter.com/i", "[.t.me/s", "[.facebook.com/x/posts", "[.instagram.com/p", "[@twitter.com/i", "[@t.me/s", "[@facebook.com/groups/", "[@instagram.com/p", "twitter.com:[", "t.me:[", "facebook.com:[/posts", "instagram.com:[", "docs.google.com:[", "youtube.com:[", "[", "]", ". ", "..", "/.", "/videos/", "posts/", "/ ",
+             "//[", "//[x/posts/", "[.twitter.com/i", "[.t.me/s", "[.facebook.com/x/posts", "[.instagram.com/p", "[@twitter.com/i", "[@t.me/s", "[@facebook.com/groups/", "[@instagram.com/p", "twitter.com:[", "t.me:[", "facebook.com:[/posts", "instagram.com:[", "docs.google.com:[", "youtube.com:[", "[", "]", ". ", "..", "/.", "/videos/", "posts/", "/ ",
              "FACEBOOK.COM/GROUPS/", "TWITTER.COM/I", "T.ME/S", "YOUTU.BE/", "https://facebook.com\\groups\\", "facebook.com/groups/\n", " facebook.com/posts/ ", "https://twitter.com/i\t", "fb.me", "fb.me/", "x.com", "t.me",
              "youtu.be", "twitter.com", "instagram.com", "docs.google.com", "facebook.com", "youtube.com", "%", "%zz", "http://%41.com/", "http://a.com/%", "a" * 300, "http://" + "a." * 80 + "com/"]
 
